@@ -394,6 +394,13 @@ def _one_scored_run(seg, result, cls_s, kw_s, score_s):
         return f"{len(built)} model(s) built in the repetition that calls score_func: every repetition needs its own fresh model"
     if strip_versions(result) != strip_versions(sc[0].data.get('result')):
         return f"the recorded value {result!r} is not score_func(model)"
+    # the model is scored in the state its run left it in: between construction and scoring the worker only tests and steps it
+    for e in seg[:seg.index(sc[0])]:
+        if e.kind == 'call' and e.data.get('target_kind') == 'pkg' and strip_versions(e.data.get('recv')) == built[0]:
+            nm = (e.data.get('callee_name') or '').rsplit('.', 1)[-1]
+            if nm not in ('__init__', 'is_running', 'execute', '__bool__', '__getattr__', 'execute_systems'):
+                return (f"the worker calls {nm}() on the model before scoring it: score_func no longer sees the model as its run left it "
+                        f"(a run cut short by the step limit looks complete, ...)")
     return None
 
 
